@@ -274,6 +274,7 @@ def run(prop, tier, seed, units, work, t0):
         'unit_wall_s': {r.unit: round(r.wall_s, 2) for r in results},
         'assumed_contracts': [dict(a, unit=r.unit) for r in results if r.gen for a in r.gen.assumed_contracts],
         'dependency_units': {r.unit: r.status for r in depres},
+        'anchors_matched_approximately': [dict(a, unit=r.unit) for r in results if r.gen for a in getattr(r.gen, 'approx_anchors', [])],
         'solver_retries': [x for r in results for x in ([getattr(r, 'retried', None)] + [v.get('retried') for v in (getattr(r, 'variants', None) or {}).values()]) if x],
         'extraction': extraction,
         'not_decided': meta_for(prop).get('not_decided', []),
